@@ -12,7 +12,7 @@
    default comes back as the default (only -0.0 vs +0.0 differ). *)
 From Coq Require Import List NArith ZArith Bool Arith Lia.
 From TarsV Require Import Gen.Consts Base.Hex Codec.Wire Codec.Skip Codec.Prim Codec.GenCodec Codec.Corr
-  Codec.RoundTrip Codec.RoundTripProofs Frame.Framing Rpc.Filters Rpc.FiltersProofs Rpc.EndToEnd Rpc.EndToEndProofs Rpc.EndToEndConc.
+  Codec.RoundTrip Codec.RoundTripProofs Codec.SkipProofs Frame.Framing Rpc.Filters Rpc.FiltersProofs Rpc.EndToEnd Rpc.EndToEndProofs Rpc.EndToEndConc Rpc.ValueWire.
 Import ListNotations.
 Open Scope N_scope.
 
@@ -126,6 +126,15 @@ Qed.
 
 Lemma filter_true_all {A} (l : list A) : filter (fun _ => true) l = l.
 Proof. induction l as [|x l IH]; cbn [filter]; [reflexivity|now rewrite IH]. Qed.
+
+Lemma encx_length e : forall vs fds Js lo, junks_ok lo fds Js ->
+  (length (RoundTrip.enc_fields e vs fds) <= length (encx_fields e vs fds Js))%nat.
+Proof.
+  induction vs as [|x vs IH]; intros fds Js lo HJ; [destruct fds; cbn; lia|].
+  destruct fds as [|fd fds]; [cbn; lia|]. destruct Js as [|J Js]; [contradiction|].
+  cbn [junks_ok] in HJ. destruct HJ as [_ HJ]. cbn [RoundTrip.enc_fields encx_fields].
+  rewrite !app_length. specialize (IH fds Js _ HJ). lia.
+Qed.
 
 (* ---------- the member-list round trip, from C03's rt_all ---------- *)
 Section Full.
@@ -253,6 +262,125 @@ Section Full.
     - exact Hfuel.
   Qed.
 
+  (* ----- any signature: the encoded out arguments between the in arguments are passed over (C04's skip_exact) ----- *)
+  Lemma fields_rt_junk fds vs ps Js tail :
+    Forall2 (fun fd x => has_type e (fty fd) x) fds vs -> Forall member_fine fds -> schema_ascending fds ->
+    Forall2 (fun fd p => zlike e (fty fd) p) fds ps -> junks_ok None fds Js ->
+    (forall fd, In fd fds -> follows (ftag fd) tail) -> fuel_static fds ->
+    dec_fields (4 * length (encx_fields e vs fds Js ++ tail) + 64) e fds ps (encx_fields e vs fds Js ++ tail)
+    = DOk (norm_fields e vs fds) tail.
+  Proof.
+    intros Hty Hmem Hasc Hps HJ Hfo Hfuel.
+    destruct (rt_all e k Hwf (4 * length (encx_fields e vs fds Js ++ tail) + 64)) as (_ & _ & _ & _ & HF).
+    apply (HF fds vs ps Js None tail); clear HF.
+    - exact Hty.
+    - eapply Forall_impl; [|exact Hmem]. intros fd (H1 & _ & H3). split; [exact H1|]. intros H. now rewrite H3 in H.
+    - exact Hasc.
+    - clear - Hps Hmem. induction Hps as [|fd p fds ps Hp _ IH]; [constructor|].
+      inversion Hmem as [|? ? (_ & _ & Hd) Hm]; subst. constructor; [|now apply IH].
+      unfold prior_ok. now rewrite Hd.
+    - exact HJ.
+    - exact Hfo.
+    - unfold fuel_ok.
+      assert (Hb : Forall2 (fun fd x => (need x <= tneed n e (fty fd) + 2 * length (enc_var e (ftag fd) (freq fd) (fty fd) (fdef fd) x))%nat) fds vs).
+      { apply fields_bound_aux; [exact Hty|]. intros fd Hin x tag req d Hx. apply need_bound; [|exact Hx].
+        rewrite Forall_forall in Hmem. now destruct (Hmem fd Hin) as (_ & H & _). }
+      pose proof (need_fields_bound e (tneed n e) fds vs Hb) as Hn.
+      pose proof (encx_length e vs fds Js None HJ) as Hle.
+      unfold fuel_static in Hfuel. rewrite app_length in *. lia.
+  Qed.
+
+  Lemma env_tags : forall sid fd, In fd (fields_of e sid) -> ftag fd < 256.
+  Proof.
+    intros sid fd Hin. pose proof (wf_asc k e Hwf sid) as H. revert H Hin. generalize (fields_of e sid). intros fds.
+    destruct fds as [|f0 r]; [contradiction|]. cbn [schema_ascending]. intros [H0 Hr] [<-|Hin]; [exact H0|].
+    revert Hr Hin. generalize (ftag f0). induction r as [|g r IH]; intros p Hr Hin; [contradiction|].
+    cbn [ascending] in Hr. destruct Hr as (_ & Hg & Hr). destruct Hin as [<-|Hin]; [exact Hg|]. exact (IH _ Hr Hin).
+  Qed.
+
+  (* an out argument the dispatcher can pass over: sizes and nesting within what the skipping reader handles *)
+  Definition skippable (x : val) : Prop := small x /\ vdepth x <= maxd.
+  Definition outs_skippable (f : fsig) (args : list val) : Prop := Forall skippable (outs_of f args).
+
+  Lemma ser_fields_app a b : ser_fields (a ++ b) = ser_fields a ++ ser_fields b.
+  Proof. induction a as [|x a IH]; cbn [app ser_fields]; [reflexivity|]. now rewrite IH, app_assoc. Qed.
+
+  Definition lo_lt (lo : option N) (i : N) : Prop := match lo with Some l0 => l0 < i | None => True end.
+  Definition junk_between (lo : option N) (hi : N) (J : list (N * wf)) : Prop := junk_ok lo hi J.
+
+  (* walking the argument list with the pending (not yet passed over) encoded out arguments [J] *)
+  Lemma interleave : forall l i args J lo,
+    args_typed e l args -> Forall skippable (pick true (map snd l) args) ->
+    i + N.of_nat (length l) <= 256 -> lo_lt lo i -> junk_ok lo i J ->
+    exists Js Jt,
+      ser_fields J ++ RoundTrip.enc_fields e args (map fst (arg_fields i l))
+      = encx_fields e (pick false (map snd l) args) (map fst (filter keep_in (arg_fields i l))) Js ++ ser_fields Jt
+      /\ junks_ok lo (map fst (filter keep_in (arg_fields i l))) Js
+      /\ Forall (fun p => fst p < 256 /\ match lo with Some l0 => l0 < fst p | None => True end) Jt
+      /\ (forall fd, In fd (map fst (filter keep_in (arg_fields i l))) -> Forall (fun p => ftag fd < fst p) Jt).
+  Proof.
+    induction l as [|[t o] l IH]; intros i args J lo Hty Hsk Hb Hlo HJ.
+    - inversion Hty; subst. exists [], J. cbn [arg_fields map filter pick RoundTrip.enc_fields encx_fields junks_ok].
+      rewrite app_nil_r. repeat split.
+      + eapply Forall_impl; [|exact HJ]. intros p (H1 & _ & _ & _ & H5). split; assumption.
+      + intros fd [].
+    - inversion Hty as [|? x ? xs Hx Hr]; subst. cbn [fst] in Hx. cbn [length] in Hb. destruct o.
+      + (* out argument: becomes pending junk *)
+        cbn [map snd pick Bool.eqb] in Hsk. inversion Hsk as [|? ? [Hsm Hd] Hsk']; subst.
+        destruct (value_is_field e env_tags (need x) x t i true None (le_n _) Hx ltac:(lia) Hsm) as [[Hf _]|(w & Ew & Okw & Dw)]; [discriminate|].
+        destruct (IH (i + 1) xs (J ++ [(i, w)]) lo Hr Hsk' ltac:(lia)) as (Js & Jt & E & HJs & HJt & Hfd).
+        { destruct lo; cbn [lo_lt] in *; lia. }
+        { unfold junk_ok in *. apply Forall_app. split.
+          - eapply Forall_impl; [|exact HJ]. intros p (H1 & H2 & H3 & H4 & H5). repeat split; try assumption. lia.
+          - constructor; [|constructor]. cbn [fst snd]. repeat split; try assumption; try lia. all: try (destruct lo; cbn [lo_lt] in Hlo; [assumption|trivial]). }
+        exists Js, Jt. cbn [arg_fields map fst filter keep_in snd negb pick Bool.eqb RoundTrip.enc_fields mkfield ftag freq fty fdef].
+        rewrite Ew. split; [|repeat split; assumption].
+        rewrite <- E, ser_fields_app. cbn [ser_fields]. rewrite app_nil_r, <- !app_assoc. reflexivity.
+      + (* in argument: the pending junk precedes it *)
+        cbn [map snd pick Bool.eqb] in Hsk.
+        destruct (IH (i + 1) xs [] (Some i) Hr Hsk ltac:(lia)) as (Js & Jt & E & HJs & HJt & Hfd).
+        { cbn [lo_lt]. lia. }
+        { constructor. }
+        cbn [ser_fields app] in E.
+        exists (J :: Js), Jt. cbn [arg_fields map fst filter keep_in snd negb pick Bool.eqb RoundTrip.enc_fields encx_fields mkfield ftag freq fty fdef].
+        split; [|split; [|split]].
+        * rewrite E, <- !app_assoc. reflexivity.
+        * cbn [junks_ok ftag]. split; [exact HJ|exact HJs].
+        * eapply Forall_impl; [|exact HJt]. intros p [H1 H2]. split; [assumption|]. destruct lo; cbn [lo_lt] in Hlo; [lia|trivial].
+        * intros fd [<-|Hin]; [|now apply Hfd]. cbn [ftag]. eapply Forall_impl; [|exact HJt]. intros p [_ H2]. exact H2.
+  Qed.
+
+  Lemma junk_tail_follows t Jt : Forall (fun p : N * wf => fst p < 256 /\ t < fst p) Jt -> follows t (ser_fields Jt).
+  Proof.
+    intros H. destruct Jt as [|[t0 w0] r]; [now left|]. inversion H as [|? ? [H1 H2] _]; subst. cbn [fst] in *.
+    right. exists (ty_of w0), t0, (ser_body w0 ++ ser_fields r). repeat split.
+    - apply ty_of_lt.
+    - exact H1.
+    - rewrite ser_fields_cons. reflexivity.
+    - now right.
+  Qed.
+
+  Theorem args_decode_any f args :
+    args_typed e (fs_args f) args -> outs_skippable f args -> sig_args_ok f -> fuel_static (in_fields f) ->
+    args_decode e f args (norm_fields e (ins_of f args) (in_fields f)).
+  Proof.
+    intros Hty Hsk [Hfine Hlen] Hfuel.
+    destruct (interleave (fs_args f) 1 args [] None Hty Hsk ltac:(lia) I ltac:(constructor)) as (Js & Jt & E & HJs & HJt & Hfd).
+    cbn [ser_fields app] in E.
+    exists (ser_fields Jt). unfold dec_list. rewrite enc_fields_bridge. unfold all_fields. rewrite E.
+    unfold ins_of, dirs_of. fold (in_fields f). change (map fst (filter keep_in (arg_fields 1 (fs_args f)))) with (in_fields f) in *.
+    apply fields_rt_junk.
+    - rewrite in_fields_eqb. now apply picked_typed.
+    - unfold in_fields. now apply picked_fine.
+    - unfold in_fields. apply (ascending_schema 0). apply picked_ascending; lia.
+    - apply zeros_zlike. unfold in_fields. now apply picked_fine.
+    - exact HJs.
+    - intros fd Hin. apply junk_tail_follows. specialize (Hfd fd Hin).
+      clear - HJt Hfd. induction Jt as [|p r IH]; [constructor|]. inversion HJt as [|? ? [H1 _] H2]; inversion Hfd; subst.
+      constructor; [split; assumption|]. now apply IH.
+    - exact Hfuel.
+  Qed.
+
   (* ----- the results: the proxy decodes the (normalised) return value and out arguments into fresh variables ----- *)
   Definition ret_ok (f : fsig) : Prop := match fs_ret f with Some t => ty_fine t | None => True end.
   Definition results_typed (f : fsig) (vs : list val) : Prop := Forall2 (fun fd x => has_type e (fty fd) x) (rsp_fields f) vs.
@@ -295,7 +423,7 @@ Section FullCall.
      nested within k and of finite depth, parameter lists short and shallow enough for the decoders' fuel *)
   Definition sig_fine (f : fsig) : Prop :=
     sig_args_ok e k n f /\ ret_ok e k n f /\ fuel_static e k n (in_fields f) /\ fuel_static e k n (rsp_fields f).
-  Definition sig_ok (f : fsig) : Prop := ins_first (fs_args f) = true /\ sig_fine f.
+  Definition sig_ok (f : fsig) : Prop := ins_first (fs_args f) = true /\ sig_fine f.   (* outs after ins: no skipping involved *)
 
   (* what the implementation receives / what the caller gets: the values, normalised *)
   Definition ins_seen (f : fsig) (args : list val) : list val := norm_fields e (ins_of f args) (in_fields f).
@@ -304,8 +432,8 @@ Section FullCall.
 
   Theorem transparent_ok_full (Pc Ps : pfilters ev unit) i f args o id sv t ret outs rc rs :
     let q := mkreq e f args o false id sv t in
-    find_fn i (fs_name f) = Some f -> sig_ok f ->
-    args_typed e (fs_args f) args -> outs_fresh e f args ->
+    find_fn i (fs_name f) = Some f -> sig_fine f ->
+    args_typed e (fs_args f) args -> outs_skippable f args -> outs_fresh e f args ->
     impl (fs_name f) (ins_seen f args) (ctx_of o) (status_of o) = IOk ret outs rc rs ->
     results_typed e f (results ret outs) ->
     wire_ok_req e sid_req max_pkt q -> wire_ok_rsp e sid_rsp max_pkt (ok_reply e f q ret outs rc rs) ->
@@ -313,36 +441,36 @@ Section FullCall.
     (COk (ret_of f (results_seen f ret outs)) (outs_from f (results_seen f ret outs)) (maps_after o rc rs),
      core_events_at Pc Ps f (ins_seen f args) o true).
   Proof.
-    cbn zeta. intros Hf (Hif & (Hargs & Hret & Hfi & Hfr)) Hty Hfresh Himpl Hrty Hwq Hwp.
+    cbn zeta. intros Hf (Hargs & Hret & Hfi & Hfr) Hty Hsk Hfresh Himpl Hrty Hwq Hwp.
     apply (transparent_ok_decoded e sid_req sid_rsp max_pkt impl Pc Ps i f args (ins_seen f args) o id sv t ret outs rc rs
              (results_seen f ret outs)); try assumption.
-    - now apply (args_decode_full e k n Hwf Hk).
+    - now apply (args_decode_any e k n Hwf Hk).
     - now apply (results_decode_full e k n Hwf Hk).
   Qed.
 
   Theorem transparent_err_full (Pc Ps : pfilters ev unit) i f args o id sv t c m :
     let q := mkreq e f args o false id sv t in
-    find_fn i (fs_name f) = Some f -> sig_ok f -> args_typed e (fs_args f) args ->
+    find_fn i (fs_name f) = Some f -> sig_fine f -> args_typed e (fs_args f) args -> outs_skippable f args ->
     impl (fs_name f) (ins_seen f args) (ctx_of o) (status_of o) = IFail c m -> c <> 0%Z ->
     wire_ok_req e sid_req max_pkt q -> wire_ok_rsp e sid_rsp max_pkt (err_reply q c m) ->
     call e sid_req sid_rsp max_pkt impl (filters_of inv_res Pc) (filters_of disp_res Ps) i f args o false id sv t =
     (err_seen c m, core_events_at Pc Ps f (ins_seen f args) o true).
   Proof.
-    cbn zeta. intros Hf (Hif & (Hargs & Hret & Hfi & Hfr)) Hty Himpl Hc Hwq Hwp.
+    cbn zeta. intros Hf (Hargs & Hret & Hfi & Hfr) Hty Hsk Himpl Hc Hwq Hwp.
     apply (transparent_err_decoded e sid_req sid_rsp max_pkt impl Pc Ps i f args (ins_seen f args)); try assumption.
-    now apply (args_decode_full e k n Hwf Hk).
+    now apply (args_decode_any e k n Hwf Hk).
   Qed.
 
   Theorem oneway_full (Pc Ps : pfilters ev unit) i f args o id sv t :
     let q := mkreq e f args o true id sv t in
-    find_fn i (fs_name f) = Some f -> sig_ok f -> args_typed e (fs_args f) args ->
+    find_fn i (fs_name f) = Some f -> sig_fine f -> args_typed e (fs_args f) args -> outs_skippable f args ->
     wire_ok_req e sid_req max_pkt q ->
     call e sid_req sid_rsp max_pkt impl (filters_of inv_res Pc) (filters_of disp_res Ps) i f args o true id sv t =
     (CSent, core_events_at Pc Ps f (ins_seen f args) o false).
   Proof.
-    cbn zeta. intros Hf (Hif & (Hargs & Hret & Hfi & Hfr)) Hty Hwq.
+    cbn zeta. intros Hf (Hargs & Hret & Hfi & Hfr) Hty Hsk Hwq.
     apply (oneway_decoded e sid_req sid_rsp max_pkt impl Pc Ps i f args (ins_seen f args)); try assumption.
-    now apply (args_decode_full e k n Hwf Hk).
+    now apply (args_decode_any e k n Hwf Hk).
   Qed.
 End FullCall.
 
@@ -460,8 +588,8 @@ Section Packets.
 
   Theorem transparent_ok_closed (Pc Ps : pfilters ev unit) i f args o id sv t ret outs rc rs :
     let q := mkreq e f args o false id sv t in
-    find_fn i (fs_name f) = Some f -> sig_ok e k n f ->
-    args_typed e (fs_args f) args -> outs_fresh e f args ->
+    find_fn i (fs_name f) = Some f -> sig_fine e k n f ->
+    args_typed e (fs_args f) args -> outs_skippable f args -> outs_fresh e f args ->
     impl (fs_name f) (ins_seen e f args) (ctx_of o) (status_of o) = IOk ret outs rc rs ->
     results_typed e f (results ret outs) ->
     req_sendable q -> rsp_sendable (ok_reply e f q ret outs rc rs) ->
@@ -469,7 +597,7 @@ Section Packets.
     (COk (ret_of f (results_seen e f ret outs)) (outs_from f (results_seen e f ret outs)) (maps_after o rc rs),
      core_events_at Pc Ps f (ins_seen e f args) o true).
   Proof.
-    cbn zeta. intros Hf Hsig Hty Hfresh Himpl Hrty [Hq Hqf] [Hp Hpf].
+    cbn zeta. intros Hf Hsig Hty Hsk Hfresh Himpl Hrty [Hq Hqf] [Hp Hpf].
     apply (transparent_ok_full e k n Hwf Hk64); try assumption.
     - now apply wire_ok_req_full.
     - now apply wire_ok_rsp_full.
@@ -477,13 +605,13 @@ Section Packets.
 
   Theorem transparent_err_closed (Pc Ps : pfilters ev unit) i f args o id sv t c m :
     let q := mkreq e f args o false id sv t in
-    find_fn i (fs_name f) = Some f -> sig_ok e k n f -> args_typed e (fs_args f) args ->
+    find_fn i (fs_name f) = Some f -> sig_fine e k n f -> args_typed e (fs_args f) args -> outs_skippable f args ->
     impl (fs_name f) (ins_seen e f args) (ctx_of o) (status_of o) = IFail c m -> c <> 0%Z ->
     req_sendable q -> rsp_sendable (err_reply q c m) ->
     call e sid_req sid_rsp max_pkt impl (filters_of inv_res Pc) (filters_of disp_res Ps) i f args o false id sv t =
     (err_seen c m, core_events_at Pc Ps f (ins_seen e f args) o true).
   Proof.
-    cbn zeta. intros Hf Hsig Hty Himpl Hc [Hq Hqf] [Hp Hpf].
+    cbn zeta. intros Hf Hsig Hty Hsk Himpl Hc [Hq Hqf] [Hp Hpf].
     apply (transparent_err_full e k n Hwf Hk64); try assumption.
     - now apply wire_ok_req_full.
     - now apply wire_ok_rsp_full.
@@ -491,11 +619,11 @@ Section Packets.
 
   Theorem oneway_closed (Pc Ps : pfilters ev unit) i f args o id sv t :
     let q := mkreq e f args o true id sv t in
-    find_fn i (fs_name f) = Some f -> sig_ok e k n f -> args_typed e (fs_args f) args -> req_sendable q ->
+    find_fn i (fs_name f) = Some f -> sig_fine e k n f -> args_typed e (fs_args f) args -> outs_skippable f args -> req_sendable q ->
     call e sid_req sid_rsp max_pkt impl (filters_of inv_res Pc) (filters_of disp_res Ps) i f args o true id sv t =
     (CSent, core_events_at Pc Ps f (ins_seen e f args) o false).
   Proof.
-    cbn zeta. intros Hf Hsig Hty [Hq Hqf].
+    cbn zeta. intros Hf Hsig Hty Hsk [Hq Hqf].
     apply (oneway_full e k n Hwf Hk64); try assumption. now apply wire_ok_req_full.
   Qed.
 
@@ -543,7 +671,7 @@ Definition transparent_ok_statement : Prop :=
     fields_of e sid_req = schema_requestf_RequestPacket -> fields_of e sid_rsp = schema_requestf_ResponsePacket ->
     max < 4294967296 ->
     let q := mkreq e f args o false id sv t in
-    find_fn i (fs_name f) = Some f -> sig_fine e k n f -> args_typed e (fs_args f) args ->
+    find_fn i (fs_name f) = Some f -> sig_fine e k n f -> args_typed e (fs_args f) args -> outs_skippable f args ->
     impl (fs_name f) (ins_of f args) (ctx_of o) (status_of o) = IOk ret outs rc rs -> ret_shape f ret ->
     results_typed e f (results ret outs) ->
     req_sendable e sid_req max q -> rsp_sendable e sid_rsp max (ok_reply e f q ret outs rc rs) ->
